@@ -52,6 +52,12 @@ def _repr_case(s, rest, e2e=None, profile='fixed'):
         e2e = (92 not in s) and len(s) <= 64
     return {'kind': 'repr', 's': s, 'rest': rest, 'e2e': bool(e2e), 'profile': profile}
 
+def _block_case(lo, hi, rest):
+    """all code points lo..hi-1 in one string; the model generates the string itself (run_block)"""
+    c = _repr_case(list(range(lo, hi)), rest, e2e=False, profile='block')
+    c['block'] = [lo, hi - lo]
+    return c
+
 def builtin_corpus():
     L = [{'kind': 'db'}]
     fixed = ["", "a", "'", '"', "'\"", "\\", "\\'", "a'b", 'a"b', "a'b\"c", "\n", "\r", "\t", "\0", "\x7f", "\x1f", " ",
@@ -62,10 +68,10 @@ def builtin_corpus():
     for t in fixed:
         for rest in (")", "'", ""):
             L.append(_repr_case(cps(t), cps(rest)))
-    L.append(_repr_case(list(range(0, 0x300)), cps("))"), e2e=False, profile='block'))
-    L.append(_repr_case(list(range(0xD7F0, 0xE010)), cps(","), e2e=False, profile='block'))
-    L.append(_repr_case(list(range(0xFFF0, 0x10010)), cps(","), e2e=False, profile='block'))
-    L.append(_repr_case(list(range(0x10FF00, 0x110000)), cps(","), e2e=False, profile='block'))
+    L.append(_block_case(0, 0x300, cps("))")))
+    L.append(_block_case(0xD7F0, 0xE010, cps(",")))
+    L.append(_block_case(0xFFF0, 0x10010, cps(",")))
+    L.append(_block_case(0x10FF00, 0x110000, cps(",")))
     for t in ["'abc' rest", "'' 'x'", "'''x'", "''", "'", '""""', "'a\\'b' + 1", "'ab\rcd' x", "'ab\ncd'", "'ab\x00cd' x",
               "'a' \x00", "'a\\q' x", "'\\x4' x", "'\\x4g'", "'\\U00110000' x", "'\\U0010FFFF' x", "'\\ud800' x", "'\ud800' x",
               "'a' \ud800", "'abc", "'abc\\", "'a\\\nb' x", "\"a'b\" 'rest", "'\\N{DIGIT ONE}'", "'\\101\\7'", "'a\x0cb' x",
@@ -91,15 +97,29 @@ def gen(rng, tier):
     B = 512
     starts = list(range(0, 0x110000, B))
     if quick:
-        starts = rng.sample(starts, 24) + [0]
+        starts = rng.sample(starts, 48) + [0]
     for lo in starts:
-        cases.append(_repr_case(list(range(lo, min(lo + B, 0x110000))), cps(")"), e2e=False, profile='block'))
+        cases.append(_block_case(lo, min(lo + B, 0x110000), cps(")")))
     rng.shuffle(cases)          # spreads the expensive block cases over the parallel Coq jobs
     return cases
 
 # ------------------------------------------------------------------ model
 
+def _printable_ranges(lo, n):
+    out = []
+    for c in range(max(lo, 128), lo + n):
+        if chr(c).isprintable():
+            if out and out[-1][1] == c - 1:
+                out[-1][1] = c
+            else:
+                out.append([c, c])
+    return out
+
 def model_expr(case):
+    if case['kind'] == 'repr' and case.get('block'):
+        lo, n = case['block']
+        assert case['s'] == list(range(lo, lo + n))
+        return '(run_block [%s] %d%%N %d%%nat %s)' % ('; '.join('(%d, %d)%%N' % (a, b) for a, b in _printable_ranges(lo, n)), lo, n, g_cps(case['rest']))
     if case['kind'] == 'repr':
         tbl = P.printable_table(case['s'])
         return '(run_repr [%s] %s %s)' % ('; '.join('%d%%N' % c for c in tbl), g_cps(case['s']), g_cps(case['rest']))
@@ -257,6 +277,7 @@ def describe(case):
 
 def shrink(case):
     if case['kind'] == 'repr':
+        case = {k: v for k, v in case.items() if k != 'block'}     # a shrunk block is an ordinary string
         s = case['s']
         n = len(s)
         if n > 8:
